@@ -26,8 +26,9 @@ POISON = ['def e { return "a" weighted 1 } /* never closed', 'def e { /* never c
           'def e { return "a" weighted }', "", 'def class { return 1 weighted 1 }', "/* only a comment */", 'def e { salt: "unterminated }']
 
 
-def rename(ast, envs, mapping):
-    """rename identifiers everywhere (AST and inputs)"""
+def rename(ast, envs, mapping, name_mapping=None):
+    """rename field identifiers (AST and inputs); the experiment name only through name_mapping"""
+    name_mapping = mapping if name_mapping is None else name_mapping
     def r(x):
         if isinstance(x, tuple):
             if len(x) == 2 and x[0] == "id":
@@ -36,7 +37,7 @@ def rename(ast, envs, mapping):
         return x
 
     _, name, salt, split, c = ast
-    ast2 = ("prog", mapping.get(name, name), salt, tuple(mapping.get(s, s) for s in split) if split else None, r(c))
+    ast2 = ("prog", name_mapping.get(name, name), salt, tuple(mapping.get(s, s) for s in split) if split else None, r(c))
     envs2 = [{mapping.get(k, k): v for k, v in e.items()} for e in envs]
     return ast2, envs2
 
@@ -53,6 +54,15 @@ def run_case(acc, tag, ast, envs, reserved):
         acc.add("ambiguous_skipped")
         return
     hit = sorted(idents_of(ast) & set(reserved))
+    # a known finding covers an identifier only in the roles it lists (e.g. helper names fail as FIELDS, not as
+    # the experiment name): any other use is checked like every other program
+    _, pname, _s, psplit, pcond = ast
+    cids = set(rp.cond_ids(pcond))
+    covered = {}  # identifier -> roles in which a known finding covers it here
+    for h in hit:
+        used = {r for r, yes in (("name", pname == h), ("splitter", h in (psplit or ())), ("condition", h in cids)) if yes}
+        covered[h] = used & set(reserved[h][1])
+    hit = [h for h in hit if covered[h]]
     if not hit:
         progcheck.check_prog(acc, ast, envs, "gram:" + tag, text=text, want_sample=tag.startswith("shared:order_id"))
         return
@@ -65,8 +75,10 @@ def run_case(acc, tag, ast, envs, reserved):
     if not probe.viol:
         acc.add("reserved_identifier_programs_passing")
         return
-    mapping = {h: f"{NEUTRAL}_{j}" for j, h in enumerate(hit)}
-    ast2, envs2 = rename(ast, envs, mapping)
+    # neutralise each listed identifier ONLY in the roles its finding covers (a helper name stays the experiment's name)
+    mapping = {h: f"{NEUTRAL}_{j}" for j, h in enumerate(hit) if covered[h] & {"splitter", "condition"}}
+    name_mapping = {h: f"{NEUTRAL}_n{j}" for j, h in enumerate(hit) if "name" in covered[h]}
+    ast2, envs2 = rename(ast, envs, mapping, name_mapping)
     probe2 = progcheck.Acc(viol_cap=1000)
     progcheck.check_prog(probe2, ast2, envs2, "gram:" + tag)
     if probe2.viol:
@@ -74,7 +86,7 @@ def run_case(acc, tag, ast, envs, reserved):
             acc.violation(v)
     else:
         for h in hit:
-            key = f"{reserved[h]} identifier={h}"
+            key = f"{reserved[h][0]} identifier={h}"
             acc.known[key] = acc.known.get(key, 0) + 1
 
 
